@@ -88,6 +88,19 @@ def judge(res, code, info, r, table):
     slots = sorted({int(e["index"], 16) for e in r["layout"]})
     res.count("storage_nodes", sk["nodes"])
     res.count("layout_entries", len(r["layout"]))
+    # whether the program executed a storage instruction at all is decided independently of the library's view: from
+    # Step events and the reference disassembly (an executed offset holding SLOAD / SSTORE as an instruction)
+    executed = (r.get("mon") or {}).get("executed_ips")
+    if executed is not None:
+        kinds = evm.disasm_ref(code)
+        real_access = any(i < len(code) and kinds[i] == "O" and code[i] in (0x54, 0x55) for i in executed)
+        if not real_access:
+            res.count("storage_free_by_step_events")
+            if slots:
+                res.violation("c05:layout-without-storage-access:by-step-events",
+                              "no SLOAD / SSTORE instruction was executed (step events), yet slots %s are reported (the library "
+                              "counts %d storage nodes)" % ([hex(s) for s in slots[:6]], sk["nodes"]), case)
+                return
     if sk["nodes"] == 0:
         res.count("storage_free_programs")
         res.nontriv(code.hex() if len(code) < 200 else common.sha(code.hex()))
@@ -130,7 +143,7 @@ def shard(shard_no, nshards, seed, tier, extra):
     for ci, (name, code) in enumerate(contracts):
         if ci % nshards != shard_no:
             continue
-        resp = d.call({"op": "analyze", "code": code.hex(), "stage": "staged", "observe": ["storage_keys", "key_trees"],
+        resp = d.call({"op": "analyze", "code": code.hex(), "stage": "staged", "observe": ["storage_keys", "key_trees", "executed"],
                        "cfg": {"permissive": True}, "wd": {"every": 100, "stop_at": 200000}}, timeout=600)
         judge(res, code, {"real-contract": name, "mutated": True}, resp, table)
         res.count("real_contracts")
@@ -161,7 +174,7 @@ def shard(shard_no, nshards, seed, tier, extra):
                 base[rng.randrange(len(base))] = rng.getrandbits(8)
             code = bytes(base)
             info = {"mutated": True}
-        req = {"op": "analyze", "code": code.hex(), "stage": "staged", "observe": ["storage_keys", "key_trees"],
+        req = {"op": "analyze", "code": code.hex(), "stage": "staged", "observe": ["storage_keys", "key_trees", "executed"],
                "cfg": {"permissive": True}, "wd": {"every": 1, "stop_at": BUDGET}}
         resp = d.call(req, timeout=300)
         judge(res, code, info, resp, table)
@@ -193,7 +206,7 @@ def replay(path):
     res = common.Result()
     d = common.Driver("rel", shim=False)
     code = bytes.fromhex(case["code"])
-    resp = d.call({"op": "analyze", "code": code.hex(), "stage": "staged", "observe": ["storage_keys", "key_trees"],
+    resp = d.call({"op": "analyze", "code": code.hex(), "stage": "staged", "observe": ["storage_keys", "key_trees", "executed"],
                    "cfg": {"permissive": True}, "wd": {"every": 1, "stop_at": BUDGET}}, timeout=300)
     d.stop()
     judge(res, code, {"fake_slots": {1}}, resp, keccak.slot_hash_table())
